@@ -365,11 +365,12 @@ func alphabet(full bool) []Step {
 
 func run(c *hl.Ctx) {
 	baseG = runtime.NumGoroutine() // no meter exists yet: every goroutine above this number is a sampler
-	c.Rule("E2: depth-first search with canonical-state deduplication over histories of (time step, counter move): full alphabet = 11 time steps {0,1ms,9.999s,10s,10.001s,20s,29.999s,30s,299.999s,300s,1000s} x 10 counter moves {+0,+1,+10,+1e6,+2^40,-1,reset to 1,reset to 0,jump to 2^63,jump to 2^64-1} to depth dF; reduced alphabet (5 x 6) to depth dR; for the kbit/s and the request-rate meter and initial counters {0,5}. Each history is replayed on a fresh meter through its public API (Start, getters, Close) with the clock behind the vtime seam, and every step is compared with the reference window model. state = (counter, per window: stored count, age of last sample, rate; average base and age); transition = one observation." + lifeRule)
+	c.Rule("E2: depth-first search with canonical-state deduplication over histories of (time step, counter move): full alphabet = 11 time steps {0,1ms,9.999s,10s,10.001s,20s,29.999s,30s,299.999s,300s,1000s} x 10 counter moves {+0,+1,+10,+1e6,+2^40,-1,reset to 1,reset to 0,jump to 2^63,jump to 2^64-1} to depth dF; reduced alphabet (5 x 6) to depth dR; for the kbit/s and the request-rate meter and initial counters {0,5}. Each history is replayed on a fresh meter through its public API (Start, getters, Close) with the clock behind the vtime seam, and every step is compared with the reference window model. state = (counter, per window: stored count, age of last sample, rate; average base and age); transition = one observation." + lifeRule + prestartRule)
 	c.Assume("the sampler goroutine is released exactly once per observation (its 10 s Sleep is virtual): sampling instants are the history's instants", "Average() is read at every observation, so its base is the first non-zero observation", "an observation of counter 0 is skipped by design and leaves all rates unchanged", "time never goes backwards",
 		"lifecycle family: the sampling instants are those at which a sampler goroutine arrives at its Sleep after a round (a goroutine that ends instead took no sample); nothing is assumed about whether a meter samples again after Close+Start",
 		"lifecycle family: between Close and the next Start nothing is read (the statement is silent there); after any Start every read must succeed",
-		"lifecycle family: all samplers of a meter wake at the same instants (one release wakes every parked sampler); a sampler parked at Close stays parked until the next sampling instant")
+		"lifecycle family: all samplers of a meter wake at the same instants (one release wakes every parked sampler); a sampler parked at Close stays parked until the next sampling instant",
+		"pre-start family: 'refused' means what the unchanged library does, the reader panics instead of returning a value (the text of the panic is not judged); a refused read is not an observation (it does not fix the origin of the average); a Close before the first Start does not make the meter started, and after the first Start every read must succeed as in the lifecycle family")
 	vtime.Enable(t0)
 	// Thorough bounds are chosen so that the enumeration finishes inside the budget and the per-worker
 	// bookkeeping (one 64-bit hash per distinct history and state, the pruning table of interior states) stays
@@ -394,6 +395,10 @@ func run(c *hl.Ctx) {
 		}
 	}
 	runLifecycleFamily(c)
+	if c.Expired() || overCaseCap(c) {
+		return
+	}
+	runPrestartFamily(c)
 }
 
 func replay(c *hl.Ctx, raw json.RawMessage) {
@@ -411,6 +416,16 @@ func replay(c *hl.Ctx, raw json.RawMessage) {
 	vtime.Enable(t0)
 	if cs.Family == "lifecycle" {
 		r := judgeLifecycle(cs.Kind, cs.Initial, cs.Ops)
+		if r.Engine != "" {
+			panic("engine: " + r.Engine)
+		}
+		if r.Key != "" {
+			c.Violation(r.Key, r.What, cs)
+		}
+		return
+	}
+	if cs.Family == "prestart" {
+		r, _ := judgePrestart(cs.Kind, cs.Initial, cs.Ops)
 		if r.Engine != "" {
 			panic("engine: " + r.Engine)
 		}
